@@ -588,6 +588,11 @@ func (l *Loop) NumVertices() int {
 // This method does not use the ShapeIndex, so it is only preferable below a certain
 // size of loop.
 func (l *Loop) bruteForceContainsPoint(p Point) bool {
+	if len(l.vertices) == 0 {
+		// A loop without vertices (it can be produced by Decode) has no
+		// boundary to cross.
+		return l.originInside
+	}
 	origin := OriginPoint()
 	inside := l.originInside
 	crosser := NewChainEdgeCrosser(origin, p, l.Vertex(0))
